@@ -224,6 +224,29 @@ def run(ctx, res):
     if outs is not None:
         for (target, inp, impl), m in zip(post, outs):
             res.corr(target.replace(" ", "_"), inp[:400], impl, m)
+    # ---- trees that come from parsing (damaged texts included): whatever the parser accepts serialises into balanced,
+    # properly nested BEGIN/END blocks that denote the tree, and parses back
+    damaged = ["BEGIN:VEVENT\r\nUID:u\r\nBEGIN:VALARM\r\nACTION:DISPLAY\r\nEND;X:VALARM\r\nEND:VALARM\r\nEND:VEVENT\r\n",
+               "BEGIN:VEVENT\r\nUID:u\r\nEND;;:VEVENT\r\nSUMMARY:s\r\nEND:VEVENT\r\n",
+               "BEGIN:VEVENT\r\nUID:u\r\nBEGIN;X:VALARM\r\nSUMMARY:s\r\nEND:VEVENT\r\n",
+               "BEGIN:VEVENT\r\nBEGIN;A=\"b:VALARM\r\nEND:VEVENT\r\n", "BEGIN:VEVENT\r\nEND;A=b\x01:VEVENT\r\nX:y\r\nEND:VEVENT\r\n"]
+    texts = [("damaged", d) for d in damaged]
+    for _ in range(600 if ctx.big else 80 * (1 + 3 * ctx.level)):
+        texts.append(("mutated", T.mutate(rng, T.gen_calendar(rng))))
+    for kind, text in texts:
+        try:
+            comps = icalendar.Calendar.from_ical(text, multiple=True)
+        except Exception:  # noqa: BLE001
+            continue
+        res.evaluations += 1
+        res.dist("parsed " + kind)
+        for c in comps:
+            out = T.impl_ser(c)
+            if not isinstance(out, str):
+                continue
+            if not balanced(out.replace("\r\n ", ""), c):
+                res.fail("C10: the serialisation of a parsed tree is not a balanced, properly nested sequence of BEGIN/END "
+                         "blocks denoting the tree", text[:800], observed=out[:600])
     # ---- corpus: a raw vDatetime value (rendering writes TZID into its own parameters)
     ev = icalendar.Event()
     ev["X-WHEN"] = vDatetime(datetime(2020, 1, 1, 10, tzinfo=zoneinfo.ZoneInfo("Europe/Berlin")))
